@@ -78,6 +78,12 @@ def run(tier, seed):
     for kind, p in valid_sets:
         for route in ("kwargs", "config", "yaml"):
             ops.append({"op": "construct", "solver": kind, "route": route, "params": p, "problem": FOREST, "model_args": margs(kind, p), "_valid": True})
+    # instance + configuration object naming another problem, then reload of the saved file: must behave like the plain routes on the instance
+    for kind in KINDS:
+        bp = base_params(kind)
+        for route in ("kwargs", "config", "yaml", "yaml_inst_cfg"):
+            ops.append({"op": "construct", "solver": kind, "route": route, "params": bp, "problem": dict(FOREST, other_kwargs={"S": 6, "r1": 2.0}),
+                        "model_args": margs(kind, bp), "_valid": True, "_problem": "forest+stale-config"})
     # the other shipped problems through every route (sequence-valued and string-valued problem parameters travel through the
     # configuration object and the YAML file too)
     from harness.c10 import PROBS
